@@ -57,6 +57,18 @@ CHECKS = {
         "Trusted: CPython ints; zone.get_utc_offset (decided by C04-C06); day<->date bijection (C01).",
         "DESIGN.md §2 C11",
     ),
+    "C13": (
+        "exploration",
+        "generated query histories built to alias cache slots, checked against cache-free oracles + generated line-level thread schedules and a 16-thread stress run",
+        "Histories of year-start, caching-zone, provider, calendar-singleton and pattern/format-info queries are "
+        "generated so that distinct keys collide (years 1024 apart, instants 512x32 days apart, > 500 cultures, a direct "
+        "model test of the shared cache class); every answer must equal a cache-free evaluation (independent reference "
+        "calendars, wrapped zone and file reference, fresh provider, cleared caches). The same queries run in 2-4 threads "
+        "on cold shared objects under generated schedules that own every pre-emption inside the cache modules, and in "
+        "16 real threads; identity claims (one zone object per id, singleton calendars, thread-local culture) must hold.",
+        "Trusted: ref/calendars.py, ref/tzrules.py; CPython GIL semantics (line-granular pre-emption model).",
+        "DESIGN.md §2 C13",
+    ),
     "C14": (
         "exploration",
         "round-trip property testing (enumerated primitive domains + Hypothesis) and byte-for-byte differential against the reference compiler's files",
